@@ -116,7 +116,6 @@ type sess struct {
 	lastAct map[string]uint64 // height of the account's last successful stake / unstake / vote
 	sysXfer bool              // a plain transfer to aergo.system was executed in this session
 	not39   bool              // a voteBP with a candidate length != 39 was executed
-	rankersPanic string       // system.GetRankers panicked on the observed state (message)
 	forceAcc []byte           // scripted sessions: the account field of the next system transactions (a name bound to the sender)
 	taint   string            // node sessions: class of the defect this history has run into (its consequences are counted, not failed)
 	how     string            // replay: how the op lines are executed
@@ -347,7 +346,7 @@ func (s *sess) look() *view {
 		return ""
 	}); p {
 		v.rankers = []string{"panic"}
-		s.rankersPanic = msg
+		s.fail("system.GetRankers panics on the node's state: " + msg)
 	}
 	v.mem = system.VerifC15VprMemory()
 	if v.load, err = system.VerifC15VprLoad(scs); err != nil {
@@ -1424,8 +1423,7 @@ func (s *sess) randomSession(steps int, tiePool bool, large bool) {
 			case 4:
 				args = []string{"600000000000000000000000000"}
 			case 5:
-				// (signed numbers within the caps: a negative one beyond a cap is the probe scripted:negative-beyond-cap)
-				args = []string{[]string{"007", "-5", "+3", "-0", "-", "-50"}[rng.Intn(6)]}
+				args = []string{[]string{"007", "-5", "+3", "-0", "-", "-100", "-101", "-500000000000000000000000000", "-500000000000000000000000001", "-1000000000000000000000"}[rng.Intn(10)]}
 			case 6:
 				args = nil
 				if !rng.Chance(1, 4) {
@@ -1708,35 +1706,19 @@ func scripted(run *vh.Run, fd *findings) {
 		s.endBlock(4 + D)
 		s.close()
 	}
-	// P6 (probe, counted until the lead decides): a negative candidate passes every upper bound of validateById; BPCOUNT = 10^21 makes
-	// GetBpCount() overflow and system.GetRankers panic (reached from bp.Snapshots.AddSnapshot in Status.Update and the votes query)
+	// R6: a negative candidate beyond the cap (regression: it passed validateById before b0b4c2db; BPCOUNT = 10^21 made
+	// system.GetRankers panic, which every observation of this harness calls)
 	{
 		s := newSess(run, fd, run.Rng.Fork(), 2, "scripted:negative-beyond-cap")
 		a := s.addAcct(fixedAddr(22), coins(20000))
 		s.h = 2
 		s.stake(a, coins(10000))
 		s.voteDAO(a, "BPCOUNT", []string{"-1000000000000000000000"})
-		if !s.dead && system.GetNextBlockParam("BPCOUNT").Cmp(big.NewInt(100)) > 0 {
-			// the block ends (not compared with the model from here on): the value is in force
-			if err := s.bs.Update(); err != nil {
-				panic(err)
-			}
-			if err := s.bs.Commit(); err != nil {
-				panic(err)
-			}
-			if err := s.sdb.UpdateRoot(s.bs); err != nil {
-				panic(err)
-			}
-			system.CommitParams(true)
-			s.bs = s.sdb.NewBlockState(s.sdb.GetRoot())
-			s.look()
-			if s.rankersPanic != "" {
-				run.Count("defect-candidate:C15-negative-candidate-bypasses-cap")
-				run.Sample("defect candidate: BPCOUNT voted to " + system.GetParam("BPCOUNT").String() + " by a negative candidate: system.GetRankers: " + s.rankersPanic)
-			}
-			system.InitSystemParams(s.sys(), 3)
-		}
-		s.dead = true
+		s.voteDAO(a, "BPCOUNT", []string{"-101"})
+		s.voteDAO(a, "BPCOUNT", []string{"-100"})
+		s.voteDAO(a, "STAKINGMIN", []string{"-500000000000000000000000001"})
+		s.voteDAO(a, "STAKINGMIN", []string{"-500000000000000000000000000"})
+		s.endBlock(3)
 		s.close()
 	}
 	// K1: two candidates equal from byte 7 on with equal tallies (DESIGN lead 4)
